@@ -26,5 +26,16 @@ class MetadataObject(SortableDict):
         if isinstance(items, dict) or isinstance(items, SortableDict):
             items = list(items.items())
 
-        for (key, value) in items:
-            self.append(key, value, replace=replace)
+        # All or nothing: when one item is refused (duplicate with
+        # replace=False, value refused by the validator, not a pair), the
+        # items stored before it are taken out again.
+        values = dict(self._values)
+        order = list(self._order)
+        try:
+            for (key, value) in items:
+                self.append(key, value, replace=replace)
+        except:
+            self._values.clear()
+            self._values.update(values)
+            self._order[:] = order
+            raise
